@@ -9,6 +9,12 @@ from . import c01
 
 THEOREMS = '''cm_energy_offset ff_energy_offset cm_basis_change basisMix_spec ff_basis_independent
 ff_basis_independent_real cm_frame_covariance ff_frame_independent'''.split()
+# infidelity-level consequences (module Props/C08Inv, namespace FFVerif.C08)
+THEOREMS += ['FFVerif.C08.' + t for t in '''infidelity_energy_offset infidelity_frame_independent
+infidelity_frame_independent' frame_identity_element infidelity_basis_independent
+infidelity_basis_change_traceless infidelity_basis_independent_traceless
+infidelity_branches_agree'''.split()]
+LEAN_MODULES = ['FFVerif.Props.C12', 'FFVerif.Props.C08Inv']
 PINS = ['pinIdentityElementIndex', 'pinGgmExpand']
 GEN_SITES = c01.GEN_SITES
 COMPONENTS = c01.COMPONENTS
